@@ -115,6 +115,12 @@ func runC04(c *wk.Ctx) {
 				}
 				c.Count("hostile-inside:" + name)
 			}
+			if dv, ok := gen.UnknownDiscriminator(r, gen.CopyRaw(raw)); ok {
+				for _, op := range c04Ops {
+					call(op, dv, "unknown-discriminator")
+				}
+				c.Count("unknown_discriminators")
+			}
 			for i := 0; i < 4; i++ {
 				if mut, where, ok := gen.InsertOddKey(r, gen.CopyRaw(raw)); ok {
 					for _, op := range c04Ops {
